@@ -33,7 +33,7 @@ def scenarios(ctx):
     # another call's answer
     for j in range(4 if quick else 30):
         scn.append(f"mux id={n + j + 1} net={rng.choice(['tcp', 'unix'])} enc={rng.choice([0, 1])} workers={rng.choice([2, 4])} "
-                   f"calls={400 if quick else 1500} threads={rng.choice([1, 2, 3])} close=none seed={rng.randrange(1, 10 ** 6)} "
+                   f"calls={300 if quick else 1500} threads={rng.choice([1, 2, 3])} close=none seed={rng.randrange(1, 10 ** 6)} "
                    f"maxbody=3000 race={rng.choice([50, 70])}")
     return scn
 
@@ -245,9 +245,10 @@ def run(ctx):
         elif rc != 0:
             ctx.violation("C38:mux-crash", "the concurrent harness crashed: " + trunc(log[-1200:], 1200),
                           {"scenarios": ctx.mux_scn, "log": log[-8000:]})
-        for i, s in enumerate(ctx.mux_scn):
-            if str(i + 1) not in ctx.mux_logs:
-                ctx.violation("C38:mux-missing", f"no log for scenario {s}", {"scenario": s})
+        if rc == 0:
+            for i, s in enumerate(ctx.mux_scn):
+                if str(i + 1) not in ctx.mux_logs:
+                    ctx.violation("C38:mux-missing", f"no log for scenario {s}", {"scenario": s})
 
     seq = R.seq_runner(binary) if binary else None
 
